@@ -51,11 +51,16 @@ def run(ctx):
   from pcstatic import regions
   regions.ONE_SIDED = True          # only over-flagging accuses a healthy artifact; a criterion that flags too little is C06's business
   try:
-    ctx.borrow(c06.rule_pred, "R-C07-EXACT", lambda r: r.construct.startswith("flag <=>") and (r.where.startswith("ec_single_checks:") or r.where.endswith(("CheckSizes.Check", "CheckExponents.Check"))))
+    ctx.borrow(c06.rule_pred, "R-C07-EXACT", lambda r: r.construct.startswith("flag <=>"))
   finally:
     regions.ONE_SIDED = False
   from . import c02
   ctx.borrow(c02.rule_codec, "R-C07-NEIGHBOUR")      # ExtendedBatchDL: a log found for point i is reported for point i
+  # a healthy key checked alone (or with copies of itself) is judged through the product tree of a single value: T must be the sum of cofactors (shared with C03)
+  from . import c03
+  ctx.borrow(c03.rule_tree, "R-C07-TREE")
+  ctx.borrow(c03.rule_remainder, "R-C07-TREE")
+  ctx.expect("R-C07-TREE", 15, "product and remainder tree obligations")
   ctx.expect("R-C07-NEIGHBOUR", 2 + 24 + 2, "BatchGCD element-wise + per-curve partitions + one fresh entry per artifact in 24 Check bodies")
   ctx.expect("R-C07-BOUNDS", 7, "seven thresholds")
   ctx.expect("R-C07-EXACT", 29, "29 registered checks")
